@@ -171,3 +171,14 @@ Proof.
   - exists 0%nat, 0, 0, 0, 0, None, [OMap 4 0 0 4 (Some 0)]. reflexivity.
   - exists 0%nat, 1, 0, 2, 0, None, [ONewline; OMap 0 0 3 0 None]. reflexivity.
 Qed.
+(* parse_reads_back_emitted: hypotheses hold for an event list with a name, a
+   line break, a one-field segment and a column that goes backwards *)
+From V Require C07.ParseRoundtrip.
+Example parse_roundtrip_ex :
+  let ops := [OMap 0 0 0 0 None; OMap 9 1 2 3 (Some 0); ONull 12; OMap 4 0 2 0 None; ONewline; OMap 2 1 5 1 (Some 1)] in
+  ParseRoundtrip.ops_in30 2 2 ops /\ ParseRoundtrip.pmaps ops 0 <> [] /\ ParseRoundtrip.negd ops 0 = true /\
+  C07.ParseMap.ParseMappingsOrdered [(0, 0, 2, 2, emit_bytes ops)] =
+    Checked.Ok (C07.ParseMap.QMap 2 2 [(0, 0, 0, 0, 0, -1); (0, 4, 0, 2, 0, -1); (0, 9, 1, 2, 3, 0); (1, 2, 1, 5, 1, 1)] true).
+Proof.
+  split; [cbn; unfold ParseRoundtrip.in30; repeat split; lia|]. split; [discriminate|]. split; vm_compute; reflexivity.
+Qed.
